@@ -7,7 +7,7 @@ RULE = ("correspondence: ecdsa_raw_sign / deterministic_generate_k / ecdsa_raw_r
         "code + RFC 6979 HMAC chain) vs the real functions for d in {1,2,N-2,N-1,small,random} and hashes 00..,ff..,N-1,N,N+1, random, "
         "lengths 0..64; nonce substituted to reach the excluded k; predicates: v in {27,28}, 1<=r<N, 1<=s<=N/2, the ECDSA "
         "verification equation (independent affine oracle), recover(v)=privtopub(d), recover(55-v)!=privtopub(d), nonce = RFC 6979")
-HYPOTHESES = ["HB4_hash (hashlib/hmac are deterministic functions of their input)"]
+HYPOTHESES = ['HB4_hash (hashlib/hmac are deterministic functions of their input)']
 NOT_YET_PROVED = []
 ASSUMPTIONS = ["k % N != 0, x(kG) % N != 0, s != 0 and x(kG) < N are explicit hypotheses (sets of relative size <= 2^-127, not reachable through HMAC)"]
 nontrivial = nontrivial_default
